@@ -137,6 +137,17 @@ def _r3(rng, lo, hi):
     return float("%.3g" % rng.uniform(lo, hi))
 
 
+def gen_int_box(rng, N):
+    """Integer-valued box (to be presented with integer-typed bounds, as the shipped GKLS does)."""
+    lower, upper = [], []
+    for _ in range(N):
+        lo = rng.randint(-6, 6)
+        side = rng.choice([1, 1, 2, 3, 4, 5, 7])
+        lower.append(float(lo))
+        upper.append(float(lo + side))
+    return lower, upper
+
+
 def gen_box(rng, N, kind=None):
     lower, upper = [], []
     for _ in range(N):
